@@ -46,6 +46,12 @@ Theorem C20_level : forall f l, f < 256 -> l < 256 ->
 Proof. exact level_roundtrip. Qed.
 Print Assumptions C20_level.
 
+(* the conversions are functions of their arguments: asked again in another order (level outermost, flags in Gray-code
+   order, each followed by the pair differing in flag 3 only) the crate gave no answer that differs from the first sweep *)
+Theorem C20_order_independent : impl_order_dependent = [].
+Proof. reflexivity. Qed.
+Print Assumptions C20_order_independent.
+
 Theorem C20_flags : forall b, b < 256 ->
   lookup b impl_cf = Some (bitn b 7, bitn b 6, bitn b 5, bitn b 4, bitn b 3, bitn b 2, b mod 4, b).
 Proof. exact constraint_flags_preserved. Qed.
